@@ -38,6 +38,7 @@ ATTR_SHIMS = {
     ("np", "isnan"): "isnan",
     ("np", "clip"): "clip",
     ("np", "arctan2"): "arctan2",
+    ("np", "cross"): "cross",
 }
 _LINALG = {("np", "linalg", "norm"): "np_linalg_norm"}
 
@@ -184,7 +185,7 @@ def extraction_report() -> dict:
         "modules": len(_REPORT),
         "call_rewrites": sum(m["rewrites"] for m in _REPORT.values()),
         "shimmed_builtins": sorted(BUILTIN_SHIMS),
-        "shimmed_library_calls": ["math.isclose", "np.isnan", "np.clip", "np.arctan2", "np.linalg.norm"],
+        "shimmed_library_calls": ["math.isclose", "np.isnan", "np.clip", "np.arctan2", "np.cross", "np.linalg.norm"],
         "rebindings": ["util.constants.DTYPE := object", "util.functions.norm := sqrt-of-squares model (symbolic args only)",
                        "util.functions.rotation_matrix := Rodrigues model (symbolic args only)"],
     }
